@@ -81,6 +81,12 @@ pub fn pools_1_to_16() -> &'static Vec<(usize, rayon::ThreadPool)> {
     POOLS.get_or_init(|| [1usize, 2, 4, 8, 16].iter().map(|&n| (n, rayon::ThreadPoolBuilder::new().num_threads(n).build().unwrap())).collect())
 }
 
+/// Rayon pools of every size from 1 to 16 (work is split by pool size, so sizes that do not divide the task count matter).
+pub fn pools_every_size() -> &'static Vec<(usize, rayon::ThreadPool)> {
+    static POOLS: std::sync::OnceLock<Vec<(usize, rayon::ThreadPool)>> = std::sync::OnceLock::new();
+    POOLS.get_or_init(|| (1usize..=16).map(|n| (n, rayon::ThreadPoolBuilder::new().num_threads(n).build().unwrap())).collect())
+}
+
 fn set_of(v: &[(usize, usize)]) -> BTreeSet<(usize, usize)> {
     v.iter().map(|&(a, b)| (a.min(b), a.max(b))).collect()
 }
@@ -240,12 +246,15 @@ pub fn eval_prepared(cfg: &Config, prep: &mut Prepared, body_table: &SafetyDesc,
                 ));
             }
         }
-        if pools && mode != 2 {
+        // a single colliding pair in first-collision mode is the sharpest case for the parallel search: exactly one task can
+        // produce the result, wherever it sits in the task list; those cases run in pools of every size 1..16
+        let single_hit = mode == 0 && hit.len() == 1 && boundary.is_empty();
+        if (pools || single_hit) && mode != 2 {
             // schedules: in first-collision mode *which* hit is returned may differ (each must be a hit); the all-collisions
             // list and the boolean verdict must be identical for every pool size and every repetition
-            for (threads, pool) in pools_1_to_16() {
+            for (threads, pool) in if single_hit { pools_every_size() } else { pools_1_to_16() } {
                 let threads = *threads;
-                for _rep in 0..3 {
+                for _rep in 0..(if single_hit && !pools { 1 } else { 3 }) {
                     let (det, col) = pool.install(|| (robot.collision_details(&cfg.q), robot.collides(&cfg.q)));
                     for p in set_of(&det) {
                         if !hit.contains(&p) && !boundary.contains(&p) {
@@ -262,7 +271,8 @@ pub fn eval_prepared(cfg: &Config, prep: &mut Prepared, body_table: &SafetyDesc,
             }
         }
     }
-    (fails, format!("{}:mode{}:hits{}", entry, mode, hit.len().min(6)))
+    let only = if hit.len() == 1 && mode == 0 { format!(":only{:?}", hit.iter().next().unwrap()) } else { String::new() };
+    (fails, format!("{}:mode{}:hits{}{only}", entry, mode, hit.len().min(6)))
 }
 
 /// Own oracle against parry's exact queries on box pairs (sanity of the oracle itself).
@@ -515,7 +525,7 @@ pub fn run(ctx: &Ctx) -> Report {
                 several objects) x postures (folded elbow, leaning into base, ...) x safety tables (touch, 2 cm, 5 cm, mixed, per-pair overrides smaller/larger, \
                 NEVER_COLLIDES on each candidate pair in both key orders) x modes x entry points {collision_details, collides, RobotBody::collides, near with a \
                 table different from the body's}; oracle PAIRS_ref: all named pairs decided by an own f64 triangle-triangle distance without any pre-filter; \
-                pairs within 1 mm of their limit are not judged; first-collision mode re-run in rayon pools of 1,2,4,8,16 threads; plus the bundled RX160 STL meshes in the cell of the crate's example against parry's exact queries; \
+                pairs within 1 mm of their limit are not judged; first-collision mode re-run in rayon pools of 1,2,4,8,16 threads, and in pools of every size 1..16 whenever exactly one pair collides; plus the bundled RX160 STL meshes in the cell of the crate's example against parry's exact queries; \
                 signature = (entry, mode, number of oracle pairs)".into();
     rep.set("axes", json!({"presence_variants": presence.len(), "layouts": N_LAYOUTS, "subdiv_variants": 2, "postures": qs.len(), "tables": tables.len()}));
     rep.assumptions.push("tasks evaluated by rayon are expected to be pure (textual audit of collisions.rs, recorded in the evidence); reports are compared across pools of 1,2,4,8,16 threads and 3 repetitions".into());
